@@ -11,6 +11,7 @@ import (
 	"bytes"
 	"encoding/hex"
 	"fmt"
+	"io"
 	"net"
 	"os"
 	"sort"
@@ -104,6 +105,14 @@ func runProbe(rm *cj.RegistrationManager, phantom net.IP, segs [][]byte, gaps []
 	cm := newConnManager(nil)
 	x, _ := vsched.RunOnce(nil, 0, func() *vsched.Scenario {
 		return &vsched.Scenario{Body: func() {
+			if draw != 0 {
+				// non-initial state: the same connection manager has already classified (and given up on) an
+				// unauthenticated connection; what it learnt there must not change how it treats the next one
+				pc := &vconn.Conn{Name: "earlier-probe", Remote: &net.TCPAddr{IP: net.IPv4(198, 51, 100, 9), Port: 40001}, Local: &net.TCPAddr{IP: phantom, Port: 443},
+					In: []vconn.Event{{Data: noise(200, "earlier")}, {Err: io.EOF}}}
+				cm.handleNewTCPConn(rm, pc, phantom)
+				pc.Close() // (the peer went away at once: no virtual time has passed)
+			}
 			cm.handleNewTCPConn(rm, conn, phantom)
 			res.returnedAt = time.Duration(vsched.ClockNanos())
 		}}
